@@ -538,12 +538,58 @@ def sampled(pg, mode, shots, seed, style, outs=None):
     raise ValueError(mode)
 
 
+def sampled_circuit_state(pg, shots, seed, style, outs=None):
+    """State left on the Circuit object by sampled runs of a CMEASURE program (two successive simulate() calls on the SAME
+    object): success_probabilities is a deterministic function of the branch, not a statistic - every entry must equal the
+    exact p_b, the keys are exactly the outcome strings observed so far, applied_gates are the gates of the LAST shot's branch."""
+    tab = {b["_outs"]: b for b in pg["br"] if not b["dead"]}
+    circ, ctl = render(pg, style)
+    sim = backend(n_shots=shots)
+    iv = init_vec(pg)
+    fails, seen = [], set()
+    np.random.seed(seed)
+    for call in (1, 2):
+        try:
+            with warnings.catch_warnings():
+                warnings.simplefilter("ignore")
+                kw = {"desired_meas_result": outs} if outs is not None else {}
+                sim.simulate(circ, initial_statevector=iv, **kw)
+        except Exception as e:
+            return fails + [("circuit-state:exception", "call %d: %s: %s" % (call, type(e).__name__, str(e)[:200]))]
+        obs = set(sim.mid_circuit_meas_freqs)
+        if outs is not None and obs != {outs}:
+            fails.append(("circuit-state:keys", "call %d: observed outcome strings %s with desired_meas_result=%r" % (call, sorted(obs), outs)))
+        seen |= obs
+        sp = dict(circ.success_probabilities)
+        if set(sp) != seen:
+            fails.append(("circuit-state:keys", "call %d: success_probabilities has keys %s, outcome strings observed so far %s" % (call, sorted(sp), sorted(seen))))
+        for k, v in sp.items():
+            if k not in tab:
+                fails.append(("circuit-state:keys", "call %d: success_probabilities[%r] for a string that is no live branch" % (call, k)))
+            elif abs(v - tab[k]["_p"]) > TOL:
+                fails.append(("circuit-state:success_probabilities", "call %d (n_shots=%d): success_probabilities[%r] = %r, exact branch probability %.12g"
+                              % (call, shots, k, v, tab[k]["_p"])))
+        got = applied_json(circ.applied_gates)
+        last = "".join(str(g["k"]) for g in got if g["name"] in ("MEASURE", "CMEASURE"))
+        if last not in obs:
+            fails.append(("circuit-state:applied_gates", "call %d: applied_gates record the outcomes %r, observed strings %s" % (call, last, sorted(obs))))
+        elif last in tab and got != spec_applied(tab[last]["applied"]):
+            fails.append(("circuit-state:applied_gates", "call %d: applied_gates %s are not the gates of the last shot's branch %r: %s"
+                          % (call, got, last, spec_applied(tab[last]["applied"]))))
+        if style == "class" and ctl is not None and (ctl.hist != "" or ctl.finalized != call * shots):
+            fails.append(("circuit-state:finalize", "call %d: finalize called %d times after %d shots (history %r)" % (call, ctl.finalized, call * shots, ctl.hist)))
+    return fails
+
+
 def sampled_key(pg, mode, aspect):
     k = klass(pg)
     # both modes go through cirq_simulator.run (all shots at once) when no statevector is requested
     if k == "static" and mode in ("save", "desired") and pg["src"] != "zero":
         return INIT_IGNORED + ":" + aspect
     return "%s:%s" % (k, aspect)
+
+
+_cs_count = [0]
 
 
 def replay_program_sampled(chk, pg, rng, shots_small, shots_big):
@@ -557,9 +603,15 @@ def replay_program_sampled(chk, pg, rng, shots_small, shots_big):
         st = rng.choice(["dict", "class"])
         todo += [("save", shots_small, st, None), ("desired", max(10, shots_small // 4), rng.choice(["dict", "class"]), rng.choice(live)["_outs"]),
                  ("oneshot", 1, rng.choice(["dict", "class", "func"]), None)]
+    if pg["_cm"]:
+        # the state carried on the Circuit object after sampled runs: n_shots in {2, 5, 50}, with and without a requested string
+        _cs_count[0] += 1
+        for shots in ((2, 5, 50) if _cs_count[0] % 3 == 0 else (2, 5)):
+            todo += [("circuit-state", shots, rng.choice(["dict", "class"]), None),
+                     ("circuit-state", shots, rng.choice(["dict", "class"]), rng.choice(live)["_outs"])]
     for mode, shots, style, outs in todo:
         seed = rng.randrange(2 ** 31)
-        fails = sampled(pg, mode, shots, seed, style, outs)
+        fails = sampled_circuit_state(pg, shots, seed, style, outs) if mode == "circuit-state" else sampled(pg, mode, shots, seed, style, outs)
         chk.add_traces(1, "sampled_" + mode)
         for aspect, detail in fails:
             if aspect == "inconclusive":
@@ -1222,6 +1274,8 @@ def replay(chk, rec):
     elif kind == "gen_applied":
         br = [b for b in pg["br"] if b["_outs"] == case["outs"]][0]
         fails = gen_applied(pg, br, style)
+    elif kind == "sampled" and case["mode"] == "circuit-state":
+        fails = sampled_circuit_state(pg, case["shots"], case["seed"], style, case.get("outs"))
     elif kind == "sampled":
         fails = sampled(pg, case["mode"], case["shots"], case["seed"], style, case.get("outs"))
     elif kind == "tail":
